@@ -23,7 +23,9 @@ import (
 	"fmt"
 	"math/rand"
 	"os"
+	"runtime"
 	"sort"
+	"strconv"
 	"strings"
 	"sync"
 	"sync/atomic"
@@ -559,7 +561,22 @@ func vC16Seq(t *testing.T, tw *vTraceWriter, behEnv string, forceImpl string) {
 	}
 }
 
-// concurrent randomized driver: G goroutines issue random calls; the real state is recorded only at quiescence.
+// vC16G is the id of the calling goroutine (the same value hook H3 records as "g").
+func vC16G() uint64 {
+	var buf [64]byte
+	b := string(buf[:runtime.Stack(buf[:], false)])
+	b = strings.TrimPrefix(b, "goroutine ")
+	if i := strings.IndexByte(b, ' '); i > 0 {
+		if n, err := strconv.ParseUint(b[:i], 10, 64); err == nil {
+			return n
+		}
+	}
+	return 0
+}
+
+// concurrent randomized driver: G goroutines issue random calls.  All lines go through base.VerifEmit into one stream together
+// with the events of hook H3 (if the tree has it): the recorded order of the cache's atomic steps is then the order in which
+// they took effect (step-level validation); without the hook only the quiescent snapshots can be judged.
 // Environment (the one under which the model proves exact accounting): writers hand over what the bucket holds,
 // scripted load failures only on keys that are never written through Put/Upsert.
 func vC16Conc(t *testing.T, tw *vTraceWriter) {
@@ -570,8 +587,11 @@ func vC16Conc(t *testing.T, tw *vTraceWriter) {
 	perRound := vEnvInt("VERIF_C16_CALLS", 12)
 	goroutines := vEnvInt("VERIF_C16_G", 4)
 	usePeek := os.Getenv("VERIF_C16_NOPEEK") == ""
+	base.VerifSetSink(func(ev map[string]any) { tw.Emit(ev) })
+	defer base.VerifSetSink(nil)
+	emit := func(line vObj) { base.VerifEmit("c16", "H", "line", line) }
 	for run := 0; run < runs; run++ {
-		impl := []string{"lru", "orch", "shard", "shard"}[rnd.Intn(4)]
+		impl := []string{"lru", "orch", "orch", "shard"}[rnd.Intn(4)]
 		capItems := 1 + rnd.Intn(3)
 		mb := []int{0, 0, 4, 6, 9}[rnd.Intn(5)]
 		if impl == "lru" {
@@ -583,8 +603,7 @@ func vC16Conc(t *testing.T, tw *vTraceWriter) {
 			storeCfg[d] = []string{"c1", "c2"}[rnd.Intn(2)]
 		}
 		e := vC16NewEnv(t, impl, capItems, vC16RealMaxBytes(mb, r1, r2), storeCfg, spread)
-		tw.Emit(e.resetLine(run, "conc", spread))
-		var logMu sync.Mutex // Begin is logged before the call starts, End after it returned
+		emit(e.resetLine(run, "conc", spread))
 		for round := 0; round < rounds; round++ {
 			var wg sync.WaitGroup
 			for g := 0; g < goroutines; g++ {
@@ -614,25 +633,24 @@ func vC16Conc(t *testing.T, tw *vTraceWriter) {
 						if !k.isCV && (s.Op == "Get" || s.Op == "GetActive") && r.Intn(4) == 0 {
 							s.F = []string{"fd", "fr"}[r.Intn(2)]
 						}
-						logMu.Lock()
-						tw.Emit(e.beginLine(s))
-						logMu.Unlock()
-						end := e.exec(s, nil)
-						logMu.Lock()
-						tw.Emit(end)
-						logMu.Unlock()
+						bl := e.beginLine(s) // Begin is recorded before the call starts, End after it returned
+						bl["g"] = vC16G()
+						emit(bl)
+						emit(e.exec(s, nil))
 					}
 				}(g, seed)
 			}
 			wg.Wait()
-			tw.Emit(vObj{"a": "Quiesce", "S": e.snap()})
+			emit(vObj{"a": "Quiesce", "S": e.snap()})
 		}
 		for i := 1; i <= 8; i++ {
 			s := vC16Step{T: "t1", Op: "Remove", K: fmt.Sprintf("k%d", i), C: "nil", F: "ok"}
-			tw.Emit(e.beginLine(s))
-			tw.Emit(e.exec(s, nil))
+			bl := e.beginLine(s)
+			bl["g"] = vC16G()
+			emit(bl)
+			emit(e.exec(s, nil))
 		}
-		tw.Emit(vObj{"a": "Quiesce", "S": e.snap()})
+		emit(vObj{"a": "Quiesce", "S": e.snap()})
 	}
 }
 
